@@ -247,6 +247,11 @@ type scen struct {
 }
 
 var sweeps []scen
+var scenIdx int
+
+// rel strips the (random) root of the temporary tree from a path or label,
+// so that the case lines depend on the seed only.
+func rel(s string) string { return strings.ReplaceAll(s, root+string(filepath.Separator), "") }
 
 func buildSweeps() {
 	if tag == "c08" {
@@ -373,9 +378,14 @@ func outcomeTag(status int) string {
 }
 
 func scenario() {
+	// every scenario has its own PRNG derived from the seed and its index: the
+	// order in which reports() visits the weeks is Go's map iteration order (not
+	// a function of the seed), and must not shift the inputs of later scenarios
+	scenIdx++
+	rnd = NewRand(Seed()*1000003 + uint64(scenIdx))
 	sc := pickScen()
-	dir, err := os.MkdirTemp(root, "t")
-	if err != nil {
+	dir := filepath.Join(root, fmt.Sprintf("t%d", scenIdx))
+	if err := os.MkdirAll(dir, 0777); err != nil {
 		panic(err)
 	}
 	defer os.RemoveAll(dir)
@@ -784,7 +794,7 @@ func scenario() {
 		okl, loc := w.listDir(w.local)
 		oku, upl := w.listDir(w.up)
 		_ = okl
-		steps = append(steps, I(int64(tid)), act, HS(label), post, B(done), B(pan), snapStr(true, loc), snapStr(oku, upl))
+		steps = append(steps, I(int64(tid)), act, HS(rel(label)), post, B(done), B(pan), snapStr(true, loc), snapStr(oku, upl))
 		nsteps++
 	}
 	// pseudo-steps (map iteration of reports()) before the call the thread is parked before
@@ -970,7 +980,7 @@ func scenario() {
 	out.Note("scenario-" + sc.kind)
 	out.Note("policy-" + sc.policy)
 
-	fields := []string{"up", tag, sc.kind, status, HS(w.local + string(filepath.Separator)), B(sc.eventual), I(int64(quietAt)),
+	fields := []string{"up", tag, sc.kind, status, HS(rel(w.local + string(filepath.Separator))), B(sc.eventual), I(int64(quietAt)),
 		HS(staleLock), I(int64(len(allowed)))}
 	for _, a := range allowed {
 		fields = append(fields, I(a))
